@@ -273,6 +273,8 @@ struct World {
 	bool storeBroken = false;         // a step the history cannot express (reset, exit) happened since the snapshot
 	bool logExact = true;             // every logged step so far was single-round and schedule-free
 	Op neutral;                       // card-less operation used for infrastructure calls
+	std::string assertTag(const std::string& expr) const;   // tag of the documented finding an assertion text belongs to ("" if none)
+	long assertionsContinued = 0;
 	int curNode = -1; int curOpKind = -1;   // what is executing (for attributing an assertion hit)
 	void runBody();
 	std::string circumstance;         // tag of the documented defect whose trigger is present in the current operation
